@@ -19,7 +19,7 @@ open Coap.Replay
 /-- Every Partial IV is recorded in the replay window at most once, by a request or by a response: in every history
 of a fresh recipient context the recorded PIVs are pairwise distinct. -/
 theorem recorded_at_most_once (cfg : Cfg) (ms : List Msg) : (recorded cfg Recip.fresh ms).Nodup :=
-  (recorded_nodup_aux cfg ms Recip.fresh [] good_fresh).1
+  (recorded_nodup_aux cfg ms Recip.fresh [] 0 (good_fresh 0)).1
 
 /-- **A protected request is accepted by a recipient context at most once**, whatever the arrival order, window size
 and Appendix B.1.2 setting, and whatever responses (with older or newer Partial IVs, authentic or forged) arrive in
@@ -30,10 +30,26 @@ theorem accept_at_most_once (cfg : Cfg) (ms : List Msg) : (accepted cfg Recip.fr
 
 /-- The same from any state that is consistent with a set `A` of already recorded PIVs: nothing of `A` is accepted
 again, and nothing is accepted twice. -/
-theorem accept_at_most_once_from (cfg : Cfg) (r : Recip) (A : List Nat) (g : Good r.view A) (ms : List Msg) :
+theorem accept_at_most_once_from (cfg : Cfg) (r : Recip) (A : List Nat) (F : Nat) (g : Good r.view A F) (ms : List Msg) :
     (accepted cfg r ms).Nodup ∧ ∀ p ∈ accepted cfg r ms, p ∉ A :=
-  ⟨(recorded_nodup_aux cfg ms r A g).1.sublist (accepted_sublist cfg ms _),
-    fun p hp => (recorded_nodup_aux cfg ms r A g).2.1 p ((accepted_sublist cfg ms r).subset hp)⟩
+  ⟨(recorded_nodup_aux cfg ms r A F g).1.sublist (accepted_sublist cfg ms _),
+    fun p hp => (recorded_nodup_aux cfg ms r A F g).2.1 p ((accepted_sublist cfg ms r).subset hp)⟩
+
+/-- **… also across restarts with Appendix B.1.2.**  A recipient context lives several lives (`ls`: the history of each
+life, every life starts from a fresh context — the replay window is lost in the crash).  With B.1.2 enabled, and the
+Echo exchange fresh (`EchoFresh`: a request that carries the current Echo value of a life was protected after that life
+began, so its Partial IV is above every Partial IV accepted in earlier lives — the sender side is
+`piv_strictly_increasing`), the Partial IVs of the requests accepted over ALL lives are pairwise distinct: a datagram
+accepted before the crash is never accepted again, however close below the Partial IV of the Echo request it lies
+(fix a6e248b: that Partial IV is the lower edge of the new window, RFC 8613 B.1.2). -/
+theorem accept_at_most_once_across_restarts (cfg : Cfg) (hb : cfg.b12 = true) (ls : List (List Msg))
+    (hf : EchoFresh cfg [] ls) : (acceptedLives cfg ls).Nodup :=
+  (acceptedLives_nodup cfg hb ls [] hf).1
+
+/-- After the Appendix B.1.2 exchange nothing below the Partial IV of the request that completed it is ever accepted. -/
+theorem nothing_below_echo_request (cfg : Cfg) (hb : cfg.b12 = true) (ms : List Msg) (p : Nat)
+    (hp : p ∈ accepted cfg Recip.fresh ms) : ∃ ev, Msg.req ev ∈ ms ∧ ev.echo = .good ∧ ev.piv ≤ p :=
+  (accepted_above_floor cfg hb ms Recip.fresh [] 0 (good_fresh 0) p hp).2 rfl
 
 /-- Only messages that authenticate are accepted (requests and responses, any state). -/
 theorem forged_never_accepted (cfg : Cfg) (r : Recip) (m : Msg) (h : m.authentic = false) :
@@ -73,7 +89,7 @@ theorem forgery_no_trace (cfg : Cfg) (r : Recip) (m : Msg) (h : m.authentic = fa
 
 /-- Every state reached from a fresh recipient context by any history of requests and responses is `Sane`. -/
 theorem reachable_sane (cfg : Cfg) (ms : List Msg) : Sane (final cfg Recip.fresh ms).view :=
-  (recorded_nodup_aux cfg ms Recip.fresh [] good_fresh).2.2.lt
+  (recorded_nodup_aux cfg ms Recip.fresh [] 0 (good_fresh 0)).2.2.lt
 
 /-- `forgery_no_trace` for the states that occur: after any history, a message that fails authentication changes
 nothing. -/
@@ -113,7 +129,8 @@ theorem no_ub_recv (cfg : Cfg) (r : Recip) (m : Msg) : (step cfg r m).2 ≠ .ub 
   | req ev =>
     simp only [step]
     rw [recv_snd]
-    rcases vrecv_cases cfg r.view ev with ⟨_, _, _, he⟩ | ⟨_, _, h3⟩
+    rcases vrecv_cases cfg r.view ev with ⟨_, _, _, ⟨he, _⟩ | ⟨_, _, _, he⟩⟩ | ⟨_, _, h3⟩
+    · rw [he]; intro h; cases h
     · rw [he]; intro h; cases h
     · exact h3
   | rsp x =>
@@ -131,11 +148,12 @@ theorem fresh_in_window_accepted (cfg : Cfg) (ms : List Msg) (ev : Ev)
     (ha : ev.authentic = true) (hp : ev.piv < SEQ_MAX)
     (hn : ev.piv ∉ recorded cfg Recip.fresh ms)
     (hw : ∀ q ∈ recorded cfg Recip.fresh ms, q < ev.piv + min cfg.window 64)
-    (hs : cfg.b12 = false ∨ recorded cfg Recip.fresh ms ≠ [] ∨ ev.echo = .good) :
+    (hs : cfg.b12 = false ∨ recorded cfg Recip.fresh ms ≠ [] ∨ ev.echo = .good)
+    (hf : floorOf cfg Recip.fresh ms 0 ≤ ev.piv) :
     (step cfg (final cfg Recip.fresh ms) (.req ev)).2 = .acc := by
-  have g := (recorded_nodup_aux cfg ms Recip.fresh [] good_fresh).2.2
+  have g := (recorded_nodup_aux cfg ms Recip.fresh [] 0 (good_fresh 0)).2.2
   rw [List.append_nil] at g
-  obtain ⟨v', hv⟩ := vvalidate_live (cfg := cfg) g hp (by simpa using hn) (by simpa using hw)
+  obtain ⟨v', hv⟩ := vvalidate_live (cfg := cfg) g hp (by simpa using hn) (by simpa using hw) (fun _ => hf)
   simp only [step]
   rw [recv_snd]
   apply vrecv_acc ha hv
@@ -159,9 +177,10 @@ theorem response_without_piv_accepted (cfg : Cfg) (r : Recip) :
 theorem fresh_response_accepted (cfg : Cfg) (ms : List Msg) (p : Nat) (hp : p < SEQ_MAX)
     (hn : p ∉ recorded cfg Recip.fresh ms)
     (hw : ∀ q ∈ recorded cfg Recip.fresh ms, q < p + min cfg.window 64)
-    (hl : (final cfg Recip.fresh ms).init = true → (final cfg Recip.fresh ms).last < SEQ_MAX) :
+    (hl : (final cfg Recip.fresh ms).init = true → (final cfg Recip.fresh ms).last < SEQ_MAX)
+    (hf : floorOf cfg Recip.fresh ms 0 ≤ p) :
     (step cfg (final cfg Recip.fresh ms) (.rsp ⟨true, some p⟩)).2 = .acc := by
-  have g := (recorded_nodup_aux cfg ms Recip.fresh [] good_fresh).2.2
+  have g := (recorded_nodup_aux cfg ms Recip.fresh [] 0 (good_fresh 0)).2.2
   rw [List.append_nil] at g
   simp only [step]
   rw [recvRsp_snd]
@@ -175,7 +194,7 @@ theorem fresh_response_accepted (cfg : Cfg) (ms : List Msg) (p : Nat) (hp : p < 
     simp [hi', hl', h2]
   | false =>
     have hi' : (final cfg Recip.fresh ms).view.init = false := hi
-    obtain ⟨v', hv⟩ := vvalidate_live (cfg := cfg) g hp (by simpa using hn) (by simpa using hw)
+    obtain ⟨v', hv⟩ := vvalidate_live (cfg := cfg) g hp (by simpa using hn) (by simpa using hw) (fun _ => hf)
     have hlt := vvalidate_last_lt hv (g.lt : Sane _)
     have h2 : ¬ v'.last ≥ SEQ_MAX := by omega
     unfold vrecvRsp
@@ -396,11 +415,30 @@ example : verdicts ⟨32, false⟩ Recip.fresh [a 10, a 10, x 5, a 5] = [.acc, .
 example : verdicts ⟨32, true⟩ Recip.fresh [e 0, x 50, a 1] = [.acc, .rej400, .acc] := by decide
 example : (final ⟨32, true⟩ Recip.fresh [e 0, x 50]).view = (final ⟨32, true⟩ Recip.fresh [e 0]).view := by decide
 -- 10, 12, 8, replay of 12 (pinned tree: last_seq lowered to 8, 12 accepted again)
-example : verdicts ⟨32, true⟩ Recip.fresh [e 10, a 12, a 8, a 12] = [.acc, .acc, .acc, .rej401] := by decide
+example : verdicts ⟨32, false⟩ Recip.fresh [a 10, a 12, a 8, a 12] = [.acc, .acc, .acc, .rej401] := by decide
 -- a jump of 95 (pinned tree: window << 95)
 example : verdicts ⟨32, true⟩ Recip.fresh [e 5, a 100, a 5, a 101] = [.acc, .acc, .rej401, .acc] := by decide
--- Appendix B.1.2 exchange: challenge, then the Echo request, then the challenged request itself (never accepted before)
-example : verdicts ⟨32, true⟩ Recip.fresh [a 4, e 5, e 5, a 4] = [.chal, .acc, .rej401, .acc] := by decide
+-- Appendix B.1.2 exchange: challenge, then the Echo request, its replay, then the challenged request itself: below the
+-- lower edge of the new window (it may have been accepted before the restart), refused; the next one is accepted
+example : verdicts ⟨32, true⟩ Recip.fresh [a 4, e 5, e 5, a 4, a 6] = [.chal, .acc, .rej401, .rej401, .acc] := by decide
+example : (final ⟨32, true⟩ Recip.fresh [a 4, e 5]).view = ⟨false, 5, 2 ^ 64 - 1⟩ ∧ floorOf ⟨32, true⟩ Recip.fresh [a 4, e 5] 0 = 5 := by
+  decide
+-- across a restart (defect 11): life 1 accepts 3, life 2 completes the Echo exchange with 8, the datagram with Partial IV
+-- 3 arrives again while 8 - 3 < window: refused (before fix a6e248b: accepted a second time, `acceptedLives` = [3, 8, 3])
+example : acceptedLives ⟨32, true⟩ [[e 3], [a 7, e 8, a 3, a 9]] = [3, 8, 9] ∧
+    EchoFresh ⟨32, true⟩ [] [[e 3], [a 7, e 8, a 3, a 9]] := by
+  refine ⟨by decide, ?_⟩
+  simp only [EchoFresh, and_true]
+  refine ⟨fun _ _ _ q hq => (by cases hq), ?_⟩
+  intro ev hm he q hq
+  have hq' : q = 3 := by
+    have : accepted ⟨32, true⟩ Recip.fresh [e 3] = [3] := by decide
+    rw [this] at hq; simpa using hq
+  subst hq'
+  simp only [a, e, List.mem_cons, Msg.req.injEq, List.not_mem_nil, or_false] at hm
+  rcases hm with rfl | rfl | rfl | rfl <;> simp_all
+-- `EchoFresh` is needed: a life-2 "Echo" request that is older than what life 1 accepted lets life-1 datagrams in again
+example : acceptedLives ⟨32, true⟩ [[e 5, a 6], [e 4, a 6]] = [5, 6, 4, 6] := by decide
 -- the hypotheses of fresh_in_window_accepted are satisfiable with a non-trivial history
 example : accepted ⟨3, false⟩ Recip.fresh [a 10, a 12, x 11] = [10, 12] := by decide
 
